@@ -247,6 +247,9 @@ def _rewrite(node, helpers, state, depth):
             return clo
     if node.get("k") in ("call", "mcall") and node.get("def"):
         h = helpers.get(fb.norm(node["def"]))
+        if h is None and node.get("rdef"):
+            # a call through a std conversion trait that resolves to an unrecorded impl of the workspace (`ReferenceType::from(x)`, `x.into()`)
+            h = helpers.get(fb.norm(node["rdef"]))
         if h is not None and depth < MAX_DEPTH and h.def_ not in state["stack"]:
             state["next"] += 1000
             blk = _inline_call(node, h, state["next"])
@@ -846,7 +849,10 @@ def _apply_helpers(facts):
     for f in facts.fn_list:
         if f.kind == "closure" or f.body is None or f.crate not in ("liwe", "iwes", "iwe"):
             continue
-        if f.d.get("derived") or f.impl_trait or f.in_trait:
+        if f.d.get("derived") or f.in_trait:
+            continue
+        # impl fns of the std conversion traits are plain helpers with a trait's name (a `match` table moved into `impl From<A> for B`); other trait impls are not touched
+        if f.impl_trait and not fb.norm(f.impl_trait).startswith(("std::convert::From", "core::convert::From", "std::convert::Into", "core::convert::Into")):
             continue
         known = rec.get(f.unit)
         if known is None or f.def_ in known:
@@ -864,7 +870,7 @@ def _apply_helpers(facts):
     for g in facts.fn_list:
         if g.kind == "closure" or g.body is None or g.def_ in helpers:
             continue
-        if not any(fb.norm(c.get("def") or "") in helpers for c in fb.walk(g.body) if c.get("k") in ("call", "mcall", "path") and c.get("def")):
+        if not any(fb.norm(c.get("def") or "") in helpers or fb.norm(c.get("rdef") or "") in helpers for c in fb.walk(g.body) if c.get("k") in ("call", "mcall", "path") and c.get("def")):
             continue
         state = {"next": (_max_id(g.body) // 1000 + 1) * 1000, "used": set(), "stack": [g.def_]}
         g.body = _rewrite(g.body, helpers, state, 0)
